@@ -187,54 +187,104 @@ theorem render_abs (B term commit n d : Nat) (b : Batch) (hB : 1 ≤ B)
 
 /-! ## the full send run -/
 
-/-- **Every batch of a send run is an enabled `sendAppend` of the protocol model.**  Full run (no wall-clock cut,
-no disconnect) from `nextIndex = first + p` in the regular region (`C11.WF`), by the leader `n < N` for the
+/-- `render_abs` over a list of batches -/
+theorem renders_abs (B term commit n d : Nat) (hB : 1 ≤ B) : ∀ bs : List Batch,
+    (∀ b ∈ bs, ∀ p e, b = Batch.chunked p e → B ≤ e.cmd.size ∧ 1 ≤ e.cmd.ovh) →
+    (bs.flatMap (render B term commit)).filterMap (absMsgS n d) = bs.filterMap (absBatch term commit n d) := by
+  intro bs
+  induction bs with
+  | nil => intro _; rfl
+  | cons b bs ih =>
+    intro h
+    rw [flatMap_cons', List.filterMap_append, render_abs B term commit n d b hB (h b (List.mem_cons_self ..)),
+      ih (fun b' hb' => h b' (List.mem_cons_of_mem _ hb'))]
+    cases hb : absBatch term commit n d b <;> simp [hb]
+
+/-- the chunk side condition of `render_abs` from `ChunkOK` and the positive pickle overheads of the log -/
+theorem chunk_cond_of {log : List NodeSend.Entry} {B : Nat} (hovh : ∀ e ∈ log, 1 ≤ e.cmd.ovh) {bs : List Batch}
+    (hck : ChunkOK B bs) (hsub : ∀ e ∈ bs.flatMap Batch.entries, e ∈ log) :
+    ∀ b ∈ bs, ∀ p e, b = Batch.chunked p e → B ≤ e.cmd.size ∧ 1 ≤ e.cmd.ovh := by
+  intro b hb pv e he
+  subst he
+  have h1 := hck _ hb
+  simp only at h1
+  refine ⟨h1, ?_⟩
+  apply hovh
+  apply hsub
+  rw [List.mem_flatMap]
+  exact ⟨_, hb, by simp [Batch.entries]⟩
+
+/-- one batch that `batch_segments` locates in the log is an enabled `sendAppend` -/
+theorem located_batch_sendAppend {first : Nat} {log : List NodeSend.Entry} {p : Nat} (hp1 : 1 ≤ p)
+    (ghost : List Raft.Entry) (hgh : ghost.length + 1 = first) (N n d term commit : Nat) (hn : n < N) (hd : d ≠ n)
+    (bs : List Batch) (hprev : PrevOK log first p bs) (hrest : ∃ rest, log.drop p = bs.flatMap Batch.entries ++ rest) :
+    ∀ b ∈ bs, ∀ S : Raft.State, (S.nodes n).role = .leader → (S.nodes n).term = term →
+      (S.nodes n).log = ghost ++ absLogS log → commit - 1 ≤ (S.nodes n).commit →
+      ∃ prev m, prev < (S.nodes n).log.length ∧ absBatch term commit n d b = some m ∧
+        Raft.step N S (.sendAppend n d prev b.entries.length (commit - 1)) = some { S with msgs := S.msgs ++ [m] } := by
+  intro b hb S hrole hterm hlog hcommit
+  obtain ⟨q, pe, h1, h2, h3, h4, h5⟩ := batch_segments bs p hprev hrest b hb
+  have hq1 : 1 ≤ q := by omega
+  obtain ⟨m, hm, hstep⟩ := batch_sendAppend ghost hgh N n d term commit S hn hd hrole hterm hlog hcommit b q pe hq1 h2 h3 h4 h5
+  refine ⟨first + q - 2, m, ?_, hm, hstep⟩
+  rw [hlog]
+  simp only [List.length_append, absLogS, List.length_map]
+  omega
+
+/-- **Every batch of a pipelined send run is an enabled `sendAppend` of the protocol model.**  Full run (no
+wall-clock cut, no disconnect) from `nextIndex = first + p` in the regular region (`C11.WF`) to a destination that
+has confirmed the entry before it (`matchIndex = m ≥ first + p − 1`, repair D62), by the leader `n < N` for the
 destination `d ≠ n`, whose model state has the same term, the log `ghost ++ absLogS log` and a commit position
 `≥ commit − 1`:  for every batch `b` there is a position `prev < |modelLog|` such that
 `sendAppend n d prev |b.entries| (commit − 1)` is enabled and adds exactly the message `absBatch b`; the wire
 messages of the run, read through `absMsgS`, are these messages in order (a chunk burst = ONE message with one
 entry). -/
 theorem sendRun_batches_refine {first : Nat} {log : List NodeSend.Entry} {p B : Nat} (wf : C11.WF first log p B)
-    (term commit : Nat) (snap : List (Option Bool)) (ghost : List Raft.Entry) (hgh : ghost.length + 1 = first)
+    (term commit : Nat) (snap : List (Option Bool)) (m : Nat) (hm : first + p - 1 ≤ m)
+    (ghost : List Raft.Entry) (hgh : ghost.length + 1 = first)
     (N n d : Nat) (hn : n < N) (hd : d ≠ n) :
-    ∃ r, sendOne ⟨B, term, commit, none⟩ log (first + p) snap none = .ok r ∧
+    ∃ r, sendOne ⟨B, term, commit, none, some m⟩ log (first + p) snap none = .ok r ∧
       r.msgs.filterMap (absMsgS n d) = r.batches.filterMap (absBatch term commit n d) ∧
       ∀ b ∈ r.batches, ∀ S : Raft.State, (S.nodes n).role = .leader → (S.nodes n).term = term →
         (S.nodes n).log = ghost ++ absLogS log → commit - 1 ≤ (S.nodes n).commit →
         ∃ prev m, prev < (S.nodes n).log.length ∧ absBatch term commit n d b = some m ∧
           Raft.step N S (.sendAppend n d prev b.entries.length (commit - 1)) = some { S with msgs := S.msgs ++ [m] } := by
-  obtain ⟨r, hr, _, _, hents, hmsgs, hprev, hck⟩ := C11.batches_partition_log wf term commit snap
+  obtain ⟨r, hr, _, _, hents, hmsgs, hprev, hck, _⟩ := C11.batches_partition_log wf term commit snap m hm
   refine ⟨r, hr, ?_, ?_⟩
   · rw [hmsgs]
-    have : ∀ bs : List Batch, (∀ b ∈ bs, ∀ p e, b = Batch.chunked p e → B ≤ e.cmd.size ∧ 1 ≤ e.cmd.ovh) →
-        (bs.flatMap (render B term commit)).filterMap (absMsgS n d) = bs.filterMap (absBatch term commit n d) := by
-      intro bs
-      induction bs with
-      | nil => intro _; rfl
-      | cons b bs ih =>
-        intro h
-        rw [flatMap_cons', List.filterMap_append, render_abs B term commit n d b wf.batch (h b (List.mem_cons_self ..)),
-          ih (fun b' hb' => h b' (List.mem_cons_of_mem _ hb'))]
-        cases hb : absBatch term commit n d b <;> simp [hb]
-    apply this
-    intro b hb pv e he
-    subst he
-    have h1 := hck _ hb
-    simp only at h1
-    refine ⟨h1, ?_⟩
-    apply wf.ovh
-    have : e ∈ r.batches.flatMap Batch.entries := by
-      rw [List.mem_flatMap]
-      exact ⟨_, hb, by simp [Batch.entries]⟩
-    rw [hents] at this
-    exact List.mem_of_mem_drop this
-  · intro b hb S hrole hterm hlog hcommit
-    obtain ⟨q, pe, h1, h2, h3, h4, h5⟩ := batch_segments r.batches p hprev ⟨[], by rw [hents]; simp⟩ b hb
-    have hq1 : 1 ≤ q := by have := wf.p1; omega
-    obtain ⟨m, hm, hstep⟩ := batch_sendAppend ghost hgh N n d term commit S hn hd hrole hterm hlog hcommit b q pe hq1 h2 h3 h4 h5
-    refine ⟨first + q - 2, m, ?_, hm, hstep⟩
-    rw [hlog]
-    simp only [List.length_append, absLogS, List.length_map]
-    omega
+    apply renders_abs B term commit n d wf.batch
+    exact chunk_cond_of wf.ovh hck (by rw [hents]; exact fun e he => List.mem_of_mem_drop he)
+  · exact located_batch_sendAppend wf.p1 ghost hgh N n d term commit hn hd r.batches hprev ⟨[], by rw [hents]; simp⟩
+
+/-- **A probing run is exactly ONE enabled `sendAppend`** (repair D62).  To a destination that has NOT confirmed the
+entry before `nextIndex` (`matchIndex = m < first + p − 1`) a full run goes through exactly one batch `b` — the
+first byte-budget batch `takeBytes B (log[p..])`, the empty heartbeat when the destination is up to date — and
+`sendAppend n d prev |b.entries| (commit − 1)` is enabled and creates exactly `absBatch b`, which is what the wire
+messages of the run read as. -/
+theorem sendRun_probe_refine {first : Nat} {log : List NodeSend.Entry} {p B : Nat} (wf : C11.WF first log p B)
+    (term commit : Nat) (snap : List (Option Bool)) (m : Nat) (hm : m < first + p - 1)
+    (ghost : List Raft.Entry) (hgh : ghost.length + 1 = first)
+    (N n d : Nat) (hn : n < N) (hd : d ≠ n) :
+    ∃ r b, sendOne ⟨B, term, commit, none, some m⟩ log (first + p) snap none = .ok r ∧
+      r.batches = [b] ∧ b.entries = takeBytes B 0 (log.drop p) ∧ r.next = first + p + b.entries.length ∧
+      r.msgs.filterMap (absMsgS n d) = (absBatch term commit n d b).toList ∧
+      ∀ S : Raft.State, (S.nodes n).role = .leader → (S.nodes n).term = term →
+        (S.nodes n).log = ghost ++ absLogS log → commit - 1 ≤ (S.nodes n).commit →
+        ∃ prev m', prev < (S.nodes n).log.length ∧ absBatch term commit n d b = some m' ∧
+          Raft.step N S (.sendAppend n d prev b.entries.length (commit - 1)) = some { S with msgs := S.msgs ++ [m'] } := by
+  obtain ⟨r, b, hr, _, hbs, hents, ⟨rest, hrest⟩, hnext, hmsgs, hprev, hck⟩ :=
+    C11.probing_run_first_batch wf term commit snap m hm
+  refine ⟨r, b, hr, hbs, hents, hnext, ?_, ?_⟩
+  · rw [hmsgs]
+    apply render_abs B term commit n d b wf.batch
+    have hsub : ∀ e ∈ [b].flatMap Batch.entries, e ∈ log := by
+      intro e he
+      simp only [List.flatMap_cons, List.flatMap_nil, List.append_nil] at he
+      apply List.mem_of_mem_drop (i := p)
+      rw [hrest]
+      exact List.mem_append_left _ he
+    exact chunk_cond_of wf.ovh hck hsub b (List.mem_singleton.mpr rfl)
+  · exact located_batch_sendAppend wf.p1 ghost hgh N n d term commit hn hd [b] hprev ⟨rest, by simp [hrest]⟩ b
+      (List.mem_singleton.mpr rfl)
 
 end PSO.Bridge
